@@ -144,6 +144,50 @@ def selectTrueFalse (l r : Int) : Option (Unit ⊕ Int) :=
   else if l = 0 ∧ r ≠ 0 then some (.inr r)
   else none
 
+/-- `SelectFoldCmpfPattern`: `select (cmpf p a b fastmath<F>) x y` with `x = a`, `y = b`
+(`sameOperands`) and both `nnan` and `nsz` in `F` becomes `maximumf a b` for
+`p ∈ {ogt, oge, ugt, uge}` (2, 3, 9, 10) and `minimumf a b` for `{olt, ole, ult, ule}` (4, 5, 11, 12). -/
+inductive MinMax where
+  | maximumf | minimumf
+deriving Repr, DecidableEq, Inhabited
+
+def selectCmpf (p : Int) (nnan nsz sameOperands : Bool) : Option MinMax :=
+  if !(nnan && nsz) then none
+  else if !sameOperands then none
+  else if p = 2 || p = 3 || p = 9 || p = 10 then some .maximumf
+  else if p = 4 || p = 5 || p = 11 || p = 12 then some .minimumf
+  else none
+
+/-- what the rule needs to know about floats: the three IEEE relations, NaN / zero tests, and
+`arith.maximumf` / `arith.minimumf` defined exactly as in the reference semantics (`Sem.f64Bin`) -/
+structure FloatOrd (F : Type) where
+  lt : F → F → Bool
+  eq : F → F → Bool
+  isNaN : F → Bool
+  isZero : F → Bool
+  neg : F → Bool          -- sign bit
+  nan : F
+  pzero : F
+  nzero : F
+
+def FloatOrd.maximumf {F : Type} (O : FloatOrd F) (a b : F) : F :=
+  if O.isNaN a || O.isNaN b then O.nan
+  else if O.isZero a && O.isZero b then (if !O.neg a || !O.neg b then O.pzero else O.nzero)
+  else if O.lt b a then a else b
+
+def FloatOrd.minimumf {F : Type} (O : FloatOrd F) (a b : F) : F :=
+  if O.isNaN a || O.isNaN b then O.nan
+  else if O.isZero a && O.isZero b then (if O.neg a || O.neg b then O.nzero else O.pzero)
+  else if O.lt a b then a else b
+
+def FloatOrd.minmax {F : Type} (O : FloatOrd F) : MinMax → F → F → F
+  | .maximumf => O.maximumf
+  | .minimumf => O.minimumf
+
+/-- `arith.cmpf p a b` (reference semantics: `Sem.cmpfTable` on the three relations) -/
+def FloatOrd.cmpf {F : Type} (O : FloatOrd F) (p : Int) (a b : F) : Option Bool :=
+  Sem.cmpfTable p (O.lt a b) (O.eq a b) (O.lt b a)
+
 /-! ## float constant folding (`_fold_const_operation`, as repaired) and reassociation -/
 
 /-- the Python float primitives used by the fold, as parameters -/
@@ -272,6 +316,7 @@ def showF32 (x : Float32) : String := if x.isNaN then "nan" else toString x.toBi
 /--
 * `constprop <w> <index 0|1> <expr>` / `unitzero <w> <expr>` / `fold <w> <index> <expr>` → expr | none
 * `cmpisame <p>` → bool
+* `selcmpf <p> <nnan> <nsz> <same-operands>` → `maximumf` | `minimumf` | `none`
 * `selconst <c>` → `lhs` | `rhs`;  `seltf <l> <r>` → `cond` | `xor <r>` | `none`
 * `ffold64 <op> <lbits> <rbits>` / `ffold32 …` → bits | nan   (model of the Python fold on native floats)
 * `fref64 <op> <lbits> <rbits>` / `fref32 …` → bits | nan     (reference semantics `Sem.f64Bin`)
@@ -294,6 +339,14 @@ def lineStep (s : Unit) (line : String) : Unit × String :=
   | ["cmpisame", p] =>
     match p.toInt? with
     | some p => (s, showBool (cmpiSame p))
+    | none => (s, "bad-op")
+  | ["selcmpf", p, nnan, nsz, same] =>
+    match p.toInt? with
+    | some p =>
+      (s, match selectCmpf p (nnan = "1") (nsz = "1") (same = "1") with
+          | some .maximumf => "maximumf"
+          | some .minimumf => "minimumf"
+          | none => "none")
     | none => (s, "bad-op")
   | ["selconst", c] =>
     match c.toInt? with
